@@ -135,19 +135,19 @@ fn histories(tier: Tier) -> Vec<History> {
     res
 }
 
-struct Watch {
-    rx: Vec<broadcast::Receiver<Event>>,
-    last: Vec<HashMap<Uid, Room>>,
+pub struct Watch {
+    pub rx: Vec<broadcast::Receiver<Event>>,
+    pub last: Vec<HashMap<Uid, Room>>,
 }
 impl Watch {
-    async fn new(u: &Universe) -> Watch {
+    pub async fn new(u: &Universe) -> Watch {
         let mut rx = vec![];
         for p in &u.peers {
             rx.push(p.subscribe().await);
         }
         Watch { rx, last: vec![HashMap::new(), HashMap::new(), HashMap::new(), HashMap::new()] }
     }
-    fn drain(&mut self) -> Result<(), String> {
+    pub fn drain(&mut self) -> Result<(), String> {
         for (i, rx) in self.rx.iter_mut().enumerate() {
             loop {
                 match rx.try_recv() {
@@ -167,13 +167,13 @@ impl Watch {
     }
 }
 
-fn err_class(e: &str) -> String {
+pub fn err_class(e: &str) -> String {
     let cut = e.split('\'').next().unwrap_or("");
     cut.chars().filter(|c| !c.is_ascii_digit()).take(56).collect()
 }
 
 /// first differing decision between two matrices, as an id-free class
-fn diff_class(expected: &[String], got: &[String]) -> Option<String> {
+pub fn diff_class(expected: &[String], got: &[String]) -> Option<String> {
     if expected.len() != got.len() {
         return Some("matrix-shape".into());
     }
@@ -197,7 +197,7 @@ fn diff_class(expected: &[String], got: &[String]) -> Option<String> {
 }
 
 /// what start-up does with the stored definition: LOAD_QUERY through the query path, then load_json
-async fn reload_room(peer: &FPeer, room: &Uid) -> Result<Room, String> {
+pub async fn reload_room(peer: &FPeer, room: &Uid) -> Result<Room, String> {
     let json = peer.query(RoomAuthorisations::LOAD_QUERY, None).await?;
     let mut v: Value = serde_json::from_str(&json).map_err(|e| e.to_string())?;
     let id = b64(room);
@@ -435,15 +435,19 @@ pub fn run(args: &Args) -> i32 {
     if let Some((i, n)) = args.shard {
         let root = scratch_root();
         let _g = ScratchGuard(root.clone());
-        let rt = runtime();
         let mut out = Outcome::default();
         let mine: Vec<&History> = hs.iter().enumerate().filter(|(hi, _)| hi % n == i).map(|(_, h)| h).collect();
-        let res: Result<(), String> = rt.block_on(async {
-            for chunk in mine.chunks(16) {
-                run_chunk(&root, chunk, &mut out, true).await?;
+        let mut res: Result<(), String> = Ok(());
+        for chunk in mine.chunks(16) {
+            // one runtime per chunk: dropping it ends the instances' tasks and threads
+            let rt = runtime();
+            let r = rt.block_on(run_chunk(&root, chunk, &mut out, true));
+            drop(rt);
+            if r.is_err() {
+                res = r;
+                break;
             }
-            Ok(())
-        });
+        }
         if let Err(e) = res {
             out.machinery_errors.push(e);
         }
